@@ -115,7 +115,11 @@ def decode_stream(text):
     return objs
 
 
-CG = ["XalanTransformer", "XSLTProcessorEnvSupportDefault", "XPathEnvSupportDefault"]
+CG = ["XalanTransformer", "XSLTProcessorEnvSupportDefault", "XPathEnvSupportDefault", "XSLTEngineImpl",
+      "StylesheetExecutionContextDefault", "XPathExecutionContextDefault", "StylesheetRoot"]
+IFACE = {"XSLTProcessorEnvSupport": "XSLTProcessorEnvSupportDefault", "XPathEnvSupport": "XSLTProcessorEnvSupportDefault",
+         "XSLTProcessor": "XSLTEngineImpl", "StylesheetExecutionContext": "StylesheetExecutionContextDefault",
+         "XPathExecutionContext": "StylesheetExecutionContextDefault", "ExecutionContext": "StylesheetExecutionContextDefault"}
 METHOD_KINDS = ("CXXMethodDecl", "CXXConstructorDecl", "CXXDestructorDecl", "CXXConversionDecl")
 
 
@@ -167,6 +171,7 @@ def ast_callgraph():
         qt = re.sub(r"\b(const|volatile|class|struct)\b", " ", qt or "")
         qt = re.sub(r"[&*]", " ", qt).strip()
         qt = qt.split("::")[-1].strip()
+        qt = IFACE.get(qt, qt)
         return qt if qt in CG else None
 
     def callees(nd, acc, statics):
@@ -190,7 +195,7 @@ def ast_callgraph():
                 acc.add((c, c)); acc.add((c, "~" + c))
         for c in nd.get("inner", []) or []:
             callees(c, acc, statics)
-    roots = [k for k in defs if k[0] == "XalanTransformer" and not methods["XalanTransformer"].get(k[1])]
+    roots = [k for k in defs if k[0] != "StylesheetRoot" and not methods.get(k[0], {}).get(k[1])] + [k for k in defs if k == ("StylesheetRoot", "process")]
     reach, work, statics = set(), list(roots), {}
     while work:
         k = work.pop()
